@@ -40,17 +40,78 @@ var targets = []target{
 	{"ttlv/decoder.go", "codec"},
 }
 
-const addedTTLV = `package ttlv
-
-import "sync"
-
-// VerifResetPlanCaches empties the lazily built per-type plan caches so that a
-// simulated run can start from a cold codec. Added by the verification overlay only.
-func VerifResetPlanCaches() {
-	encodeFuncsCache = new(sync.Map)
-	decodeFuncsCache = new(sync.Map)
+// resetFile generates the overlay-only file that empties every lazily filled, process-wide cache of a
+// package (package-level sync.Map variables: the per-type plan caches today, whatever a change adds
+// tomorrow) so that each simulated run starts from a cold codec.
+func resetFile(pkgDir, pkgName, funcName string) string {
+	var names, kinds []string
+	files, _ := filepath.Glob(filepath.Join(pkgDir, "*.go"))
+	sort.Strings(files)
+	for _, f := range files {
+		if strings.HasSuffix(f, "_test.go") {
+			continue
+		}
+		af, err := parser.ParseFile(token.NewFileSet(), f, nil, 0)
+		if err != nil {
+			continue
+		}
+		for _, d := range af.Decls {
+			gd, ok := d.(*ast.GenDecl)
+			if !ok || gd.Tok != token.VAR {
+				continue
+			}
+			for _, sp := range gd.Specs {
+				vs := sp.(*ast.ValueSpec)
+				for i, nm := range vs.Names {
+					kind := ""
+					if isSyncMap(vs.Type) {
+						kind = "value"
+					}
+					if i < len(vs.Values) {
+						switch v := vs.Values[i].(type) {
+						case *ast.CallExpr: // new(sync.Map)
+							if id, ok := v.Fun.(*ast.Ident); ok && id.Name == "new" && len(v.Args) == 1 && isSyncMap(v.Args[0]) {
+								kind = "ptr"
+							}
+						case *ast.UnaryExpr: // &sync.Map{}
+							if cl, ok := v.X.(*ast.CompositeLit); ok && v.Op == token.AND && isSyncMap(cl.Type) {
+								kind = "ptr"
+							}
+						case *ast.CompositeLit:
+							if isSyncMap(v.Type) {
+								kind = "value"
+							}
+						}
+					}
+					if kind != "" {
+						names = append(names, nm.Name)
+						kinds = append(kinds, kind)
+					}
+				}
+			}
+		}
+	}
+	var b strings.Builder
+	fmt.Fprintf(&b, "package %s\n\nimport \"sync\"\n\nvar _ sync.Locker\n\n// %s empties the lazily built process-wide caches of this package. Added by the verification overlay only.\nfunc %s() {\n", pkgName, funcName, funcName)
+	for i, n := range names {
+		if kinds[i] == "ptr" {
+			fmt.Fprintf(&b, "\t%s = new(sync.Map)\n", n)
+		} else {
+			fmt.Fprintf(&b, "\t%s.Clear()\n", n)
+		}
+	}
+	b.WriteString("}\n")
+	return b.String()
 }
-`
+
+func isSyncMap(e ast.Expr) bool {
+	se, ok := e.(*ast.SelectorExpr)
+	if !ok {
+		return false
+	}
+	id, ok := se.X.(*ast.Ident)
+	return ok && id.Name == "sync" && se.Sel.Name == "Map"
+}
 
 func fail(a ...any) {
 	fmt.Fprintln(os.Stderr, append([]any{"instrument:"}, a...)...)
@@ -81,6 +142,16 @@ func main() {
 	}
 	overlay := map[string]string{}
 	mutApplied := 0
+	// channel-typed struct fields of the whole module (for `range x.field` loops)
+	_ = filepath.WalkDir(repo, func(path string, d os.DirEntry, err error) error {
+		if err != nil || d.IsDir() || !strings.HasSuffix(path, ".go") || strings.HasSuffix(path, "_test.go") || strings.Contains(path, "/.git/") {
+			return nil
+		}
+		if f, err := parser.ParseFile(token.NewFileSet(), path, nil, 0); err == nil {
+			collectChanFields(f)
+		}
+		return nil
+	})
 	for _, tg := range targets {
 		files, _ := filepath.Glob(filepath.Join(repo, tg.pattern))
 		sort.Strings(files)
@@ -119,8 +190,9 @@ func main() {
 	if *mutate != "" && (mutApplied == 0 || mutApplied != len(mutations[*mutate].edits)) {
 		fail("unknown or inapplicable mutation", *mutate)
 	}
-	// every other non-test file of the module: only sync.Pool is replaced (a source of
-	// nondeterminism wherever it sits), nothing else is touched
+	// every other non-test file of the module, "light" mode: goroutines, selects, channel operations,
+	// locks, waits, sleeps and sync.Pool are put under the simulator's control wherever they sit (a change
+	// may introduce them anywhere), but no per-statement yields are added
 	_ = filepath.WalkDir(repo, func(path string, d os.DirEntry, err error) error {
 		if err != nil {
 			return nil
@@ -138,11 +210,11 @@ func main() {
 			return nil
 		}
 		raw, err := os.ReadFile(path)
-		if err != nil || !strings.Contains(string(raw), "sync.Pool") {
+		if err != nil {
 			return nil
 		}
 		rel, _ := filepath.Rel(repo, path)
-		src, err := rewriteFile(path, rel, raw, "pool")
+		src, err := rewriteFile(path, rel, raw, "light")
 		if err != nil {
 			fail(rel, err)
 		}
@@ -153,11 +225,13 @@ func main() {
 		overlay[path] = dst
 		return nil
 	})
-	added := filepath.Join(out, "ttlv__zz_kmipverif.go")
-	if err := os.WriteFile(added, []byte(addedTTLV), 0o644); err != nil {
-		fail(err)
+	for _, pk := range [][3]string{{"ttlv", "ttlv", "VerifResetPlanCaches"}, {".", "kmip", "VerifResetCaches"}, {"payloads", "payloads", "VerifResetCaches"}} {
+		added := filepath.Join(out, strings.ReplaceAll(pk[1], "/", "_")+"__zz_kmipverif.go")
+		if err := os.WriteFile(added, []byte(resetFile(filepath.Join(repo, pk[0]), pk[1], pk[2])), 0o644); err != nil {
+			fail(err)
+		}
+		overlay[filepath.Join(repo, pk[0], "zz_kmipverif.go")] = added
 	}
-	overlay[filepath.Join(repo, "ttlv", "zz_kmipverif.go")] = added
 	b, _ := json.MarshalIndent(map[string]any{"Replace": overlay}, "", " ")
 	if err := os.WriteFile(filepath.Join(out, "overlay.json"), b, 0o644); err != nil {
 		fail(err)
@@ -165,12 +239,14 @@ func main() {
 }
 
 type rw struct {
-	fset  *token.FileSet
-	rel   string
-	n     int
-	fn    string
-	yield string // simrt.Yield or simrt.YieldCodec
-	sched bool
+	fset       *token.FileSet
+	rel        string
+	n          int
+	fn         string
+	yield      string // simrt.Yield or simrt.YieldCodec
+	sched      bool   // rewrite go / select / channel operations / locks / waits / sleeps
+	light      bool   // no per-statement yields (files outside the connection code)
+	chanIdents map[string]bool
 }
 
 func (r *rw) site(pos token.Pos) string {
@@ -194,7 +270,7 @@ func rewriteFile(path, rel string, raw []byte, mode string) ([]byte, error) {
 	}
 	file.Comments = keep
 	file.Doc = nil
-	r := &rw{fset: fset, rel: rel, yield: "simrt.Yield", sched: mode == "sched"}
+	r := &rw{fset: fset, rel: rel, yield: "simrt.Yield", sched: mode != "pool", light: mode == "light"}
 	if mode == "codec" {
 		r.yield = "simrt.YieldCodec"
 	}
@@ -232,6 +308,8 @@ func rewriteFile(path, rel string, raw []byte, mode string) ([]byte, error) {
 			continue
 		}
 		r.fn = fd.Name.Name
+		r.chanIdents = map[string]bool{}
+		collectChanIdents(fd, r.chanIdents)
 		r.rewriteTree(fd.Body)
 	}
 	addImport(file, "simrt", "kmipverif/simrt")
@@ -249,6 +327,9 @@ func rewriteFile(path, rel string, raw []byte, mode string) ([]byte, error) {
 
 // rewriteTree rewrites every statement list below root, innermost first.
 func (r *rw) rewriteTree(root ast.Node) {
+	if r.sched {
+		r.normalizeTree(root)
+	}
 	var lists []*[]ast.Stmt
 	ast.Inspect(root, func(n ast.Node) bool {
 		switch x := n.(type) {
@@ -305,10 +386,12 @@ func (r *rw) rewriteList(in []ast.Stmt) []ast.Stmt {
 			return in
 		}
 		y := r.yield
-		if r.sched && (r.isHotBefore(s) || r.isHotAfter(prev)) {
+		if r.sched && r.yield == "simrt.Yield" && (r.isHotBefore(s) || r.isHotAfter(prev)) {
 			y = "simrt.YieldHot"
 		}
-		out = append(out, r.stmts(fmt.Sprintf(`%s(%q)`, y, r.site(s.Pos())))...)
+		if !r.light {
+			out = append(out, r.stmts(fmt.Sprintf(`%s(%q)`, y, r.site(s.Pos())))...)
+		}
 		if r.sched {
 			out = append(out, r.rewriteStmt(s)...)
 		} else {
@@ -337,6 +420,13 @@ func (r *rw) rewriteStmt(s ast.Stmt) []ast.Stmt {
 	case *ast.ExprStmt:
 		if u, ok := x.X.(*ast.UnaryExpr); ok && u.Op == token.ARROW {
 			return r.bracket(x, x.Pos())
+		}
+		if call, ok := x.X.(*ast.CallExpr); ok && len(call.Args) == 1 {
+			if sel, ok := call.Fun.(*ast.SelectorExpr); ok && sel.Sel.Name == "Sleep" {
+				if id, ok := sel.X.(*ast.Ident); ok && id.Name == "time" {
+					return r.stmts(fmt.Sprintf(`simrt.SleepFor(%s)`, r.node(call.Args[0])))
+				}
+			}
 		}
 		if call, ok := x.X.(*ast.CallExpr); ok && len(call.Args) == 0 {
 			if sel, ok := call.Fun.(*ast.SelectorExpr); ok {
@@ -611,4 +701,359 @@ func addImport(f *ast.File, name, path string) {
 	gd := &ast.GenDecl{Tok: token.IMPORT, Specs: []ast.Spec{spec}}
 	f.Decls = append([]ast.Decl{gd}, f.Decls...)
 	f.Imports = append(f.Imports, spec)
+}
+
+// ---------------------------------------------------------------- normalisation
+//
+// Channel receives can hide anywhere an expression is allowed (`return <-ch`, `f(<-ch)`,
+// `if v := <-ch; ...`, `for v := range ch`). Before the statement-level rewrite every such
+// receive is turned into a statement of its own (`__rvN := <-ch`), which the rewrite then
+// brackets with Block/Wake like any other receive statement.
+
+// chanFields: names of struct fields declared with a channel type anywhere in the rewritten files.
+var chanFields = map[string]bool{}
+
+func collectChanFields(f *ast.File) {
+	ast.Inspect(f, func(n ast.Node) bool {
+		st, ok := n.(*ast.StructType)
+		if !ok || st.Fields == nil {
+			return true
+		}
+		for _, fld := range st.Fields.List {
+			if _, ok := fld.Type.(*ast.ChanType); ok {
+				for _, nm := range fld.Names {
+					chanFields[nm.Name] = true
+				}
+			}
+		}
+		return true
+	})
+}
+
+func collectChanIdents(fd *ast.FuncDecl, out map[string]bool) {
+	addFields := func(fl *ast.FieldList) {
+		if fl == nil {
+			return
+		}
+		for _, f := range fl.List {
+			if _, ok := f.Type.(*ast.ChanType); ok {
+				for _, nm := range f.Names {
+					out[nm.Name] = true
+				}
+			}
+		}
+	}
+	addFields(fd.Type.Params)
+	addFields(fd.Recv)
+	ast.Inspect(fd, func(n ast.Node) bool {
+		switch x := n.(type) {
+		case *ast.FuncLit:
+			addFields(x.Type.Params)
+		case *ast.AssignStmt:
+			for i, rhs := range x.Rhs {
+				if i >= len(x.Lhs) {
+					break
+				}
+				id, ok := x.Lhs[i].(*ast.Ident)
+				if !ok {
+					continue
+				}
+				if call, ok := rhs.(*ast.CallExpr); ok {
+					if fn, ok := call.Fun.(*ast.Ident); ok && fn.Name == "make" && len(call.Args) > 0 {
+						if _, ok := call.Args[0].(*ast.ChanType); ok {
+							out[id.Name] = true
+						}
+					}
+				}
+			}
+		case *ast.ValueSpec:
+			if _, ok := x.Type.(*ast.ChanType); ok {
+				for _, nm := range x.Names {
+					out[nm.Name] = true
+				}
+			}
+		}
+		return true
+	})
+}
+
+func (r *rw) isChanExpr(e ast.Expr) bool {
+	switch x := e.(type) {
+	case *ast.Ident:
+		return r.chanIdents[x.Name]
+	case *ast.SelectorExpr:
+		return chanFields[x.Sel.Name]
+	case *ast.ParenExpr:
+		return r.isChanExpr(x.X)
+	case *ast.CallExpr:
+		if se, ok := x.Fun.(*ast.SelectorExpr); ok && se.Sel.Name == "Done" && len(x.Args) == 0 {
+			return true
+		}
+	}
+	return false
+}
+
+func isRecv(e ast.Expr) bool {
+	u, ok := e.(*ast.UnaryExpr)
+	return ok && u.Op == token.ARROW
+}
+
+// containsRecv reports whether a receive occurs in e outside function literals.
+func containsRecv(n ast.Node) bool {
+	found := false
+	if n == nil || reflect.ValueOf(n).IsNil() {
+		return false
+	}
+	ast.Inspect(n, func(m ast.Node) bool {
+		if _, ok := m.(*ast.FuncLit); ok {
+			return false
+		}
+		if e, ok := m.(ast.Expr); ok && isRecv(e) {
+			found = true
+		}
+		return !found
+	})
+	return found
+}
+
+// hoist replaces every receive inside *e (outside function literals) by a fresh identifier and
+// returns the statements that perform the receives, in evaluation order.
+func (r *rw) hoist(e *ast.Expr) []ast.Stmt {
+	var pre []ast.Stmt
+	var walk func(p *ast.Expr)
+	walk = func(p *ast.Expr) {
+		if *p == nil {
+			return
+		}
+		switch x := (*p).(type) {
+		case *ast.FuncLit:
+			return
+		case *ast.UnaryExpr:
+			walk(&x.X)
+			if x.Op == token.ARROW {
+				name := fmt.Sprintf("__rv%d", r.uniq())
+				pre = append(pre, r.stmts(fmt.Sprintf("%s := <-%s", name, r.node(x.X)))...)
+				*p = ast.NewIdent(name)
+			}
+		case *ast.BinaryExpr:
+			walk(&x.X)
+			walk(&x.Y)
+		case *ast.CallExpr:
+			walk(&x.Fun)
+			for i := range x.Args {
+				walk(&x.Args[i])
+			}
+		case *ast.ParenExpr:
+			walk(&x.X)
+		case *ast.SelectorExpr:
+			walk(&x.X)
+		case *ast.IndexExpr:
+			walk(&x.X)
+			walk(&x.Index)
+		case *ast.SliceExpr:
+			walk(&x.X)
+			walk(&x.Low)
+			walk(&x.High)
+			walk(&x.Max)
+		case *ast.StarExpr:
+			walk(&x.X)
+		case *ast.TypeAssertExpr:
+			walk(&x.X)
+		case *ast.KeyValueExpr:
+			walk(&x.Value)
+		case *ast.CompositeLit:
+			for i := range x.Elts {
+				walk(&x.Elts[i])
+			}
+		}
+	}
+	walk(e)
+	return pre
+}
+
+// normalizeTree rewrites every statement list below root so that receives are statements.
+func (r *rw) normalizeTree(root ast.Node) {
+	var lists []*[]ast.Stmt
+	ast.Inspect(root, func(n ast.Node) bool {
+		switch x := n.(type) {
+		case *ast.BlockStmt:
+			lists = append(lists, &x.List)
+		case *ast.CaseClause:
+			lists = append(lists, &x.Body)
+		case *ast.CommClause:
+			lists = append(lists, &x.Body)
+		}
+		return true
+	})
+	for i := len(lists) - 1; i >= 0; i-- {
+		var out []ast.Stmt
+		for _, s := range *lists[i] {
+			out = append(out, r.normalizeStmt(s)...)
+		}
+		*lists[i] = out
+	}
+}
+
+func (r *rw) normalizeStmt(s ast.Stmt) []ast.Stmt {
+	switch x := s.(type) {
+	case *ast.LabeledStmt:
+		inner := r.normalizeStmt(x.Stmt)
+		if len(inner) == 1 {
+			x.Stmt = inner[0]
+			return []ast.Stmt{x}
+		}
+		// the hoisted receives go in front of the label's statement; the label keeps naming the statement itself
+		x.Stmt = inner[len(inner)-1]
+		return append(inner[:len(inner)-1], x)
+	case *ast.ReturnStmt:
+		var pre []ast.Stmt
+		for i := range x.Results {
+			pre = append(pre, r.hoist(&x.Results[i])...)
+		}
+		return append(pre, s)
+	case *ast.ExprStmt:
+		if isRecv(x.X) {
+			return []ast.Stmt{s}
+		}
+		return append(r.hoist(&x.X), s)
+	case *ast.AssignStmt:
+		if len(x.Rhs) == 1 && isRecv(x.Rhs[0]) {
+			u := x.Rhs[0].(*ast.UnaryExpr)
+			return append(r.hoist(&u.X), s)
+		}
+		var pre []ast.Stmt
+		for i := range x.Rhs {
+			pre = append(pre, r.hoist(&x.Rhs[i])...)
+		}
+		return append(pre, s)
+	case *ast.SendStmt:
+		pre := r.hoist(&x.Chan)
+		pre = append(pre, r.hoist(&x.Value)...)
+		return append(pre, s)
+	case *ast.DeferStmt:
+		var pre []ast.Stmt
+		for i := range x.Call.Args {
+			pre = append(pre, r.hoist(&x.Call.Args[i])...)
+		}
+		return append(pre, s)
+	case *ast.GoStmt:
+		var pre []ast.Stmt
+		for i := range x.Call.Args {
+			pre = append(pre, r.hoist(&x.Call.Args[i])...)
+		}
+		return append(pre, s)
+	case *ast.DeclStmt:
+		if gd, ok := x.Decl.(*ast.GenDecl); ok {
+			var pre []ast.Stmt
+			for _, sp := range gd.Specs {
+				if vs, ok := sp.(*ast.ValueSpec); ok {
+					for i := range vs.Values {
+						pre = append(pre, r.hoist(&vs.Values[i])...)
+					}
+				}
+			}
+			return append(pre, s)
+		}
+	case *ast.IfStmt:
+		return r.normalizeIf(x)
+	case *ast.SwitchStmt:
+		if x.Init != nil && containsRecv(x.Init) {
+			init := x.Init
+			x.Init = nil
+			pre := r.normalizeStmt(init)
+			pre = append(pre, r.hoist(&x.Tag)...)
+			return []ast.Stmt{&ast.BlockStmt{List: append(pre, x)}}
+		}
+		if x.Tag != nil {
+			return append(r.hoist(&x.Tag), s)
+		}
+	case *ast.TypeSwitchStmt:
+		if x.Init != nil && containsRecv(x.Init) {
+			init := x.Init
+			x.Init = nil
+			return []ast.Stmt{&ast.BlockStmt{List: append(r.normalizeStmt(init), x)}}
+		}
+		if containsRecv(x.Assign) {
+			fail(r.site(s.Pos()), "receive inside a type switch guard is not supported")
+		}
+	case *ast.ForStmt:
+		if x.Init != nil && containsRecv(x.Init) {
+			init := x.Init
+			x.Init = nil
+			if containsRecv(x.Cond) || containsRecv(x.Post) {
+				fail(r.site(s.Pos()), "receive inside a for condition/post statement is not supported")
+			}
+			return []ast.Stmt{&ast.BlockStmt{List: append(r.normalizeStmt(init), x)}}
+		}
+		if containsRecv(x.Cond) || containsRecv(x.Post) {
+			fail(r.site(s.Pos()), "receive inside a for condition/post statement is not supported")
+		}
+	case *ast.RangeStmt:
+		if r.isChanExpr(x.X) {
+			return r.rangeOverChan(x)
+		}
+		return append(r.hoist(&x.X), s)
+	}
+	return []ast.Stmt{s}
+}
+
+func (r *rw) normalizeIf(x *ast.IfStmt) []ast.Stmt {
+	// else-if chains first (innermost), so that their own init/cond receives get their own block
+	if ei, ok := x.Else.(*ast.IfStmt); ok && (containsRecv(ei.Init) || containsRecv(ei.Cond)) {
+		x.Else = &ast.BlockStmt{List: r.normalizeIf(ei)}
+	} else if ei, ok := x.Else.(*ast.IfStmt); ok {
+		r.normalizeIf(ei)
+	}
+	var pre []ast.Stmt
+	if x.Init != nil && containsRecv(x.Init) {
+		init := x.Init
+		x.Init = nil
+		pre = append(pre, r.normalizeStmt(init)...)
+		pre = append(pre, r.hoist(&x.Cond)...)
+		return []ast.Stmt{&ast.BlockStmt{List: append(pre, x)}}
+	}
+	if containsRecv(x.Cond) {
+		if x.Init != nil {
+			init := x.Init
+			x.Init = nil
+			pre = append(pre, init)
+			pre = append(pre, r.hoist(&x.Cond)...)
+			return []ast.Stmt{&ast.BlockStmt{List: append(pre, x)}}
+		}
+		return append(r.hoist(&x.Cond), x)
+	}
+	return []ast.Stmt{x}
+}
+
+// rangeOverChan turns `for v := range ch { body }` into an explicit receive loop.
+func (r *rw) rangeOverChan(x *ast.RangeStmt) []ast.Stmt {
+	ch := fmt.Sprintf("__ch%d", r.uniq())
+	okv := fmt.Sprintf("__ok%d", r.uniq())
+	recv := ""
+	switch {
+	case x.Key == nil:
+		recv = fmt.Sprintf("_, %s := <-%s", okv, ch)
+	case x.Tok == token.DEFINE:
+		recv = fmt.Sprintf("%s, %s := <-%s", r.node(x.Key), okv, ch)
+	default:
+		recv = fmt.Sprintf("var %s bool\n%s, %s = <-%s", okv, r.node(x.Key), okv, ch)
+	}
+	src := fmt.Sprintf("%s := %s\nfor {\n%s\nif !%s {\nbreak\n}\n__RANGEBODY__()\n}", ch, r.node(x.X), recv, okv)
+	src = strings.ReplaceAll(src, "\\n", "\n")
+	st := r.stmts(src)
+	loop := st[len(st)-1].(*ast.ForStmt)
+	var body []ast.Stmt
+	for _, bs := range loop.Body.List {
+		if es, ok := bs.(*ast.ExprStmt); ok {
+			if call, ok := es.X.(*ast.CallExpr); ok {
+				if id, ok := call.Fun.(*ast.Ident); ok && id.Name == "__RANGEBODY__" {
+					body = append(body, x.Body.List...)
+					continue
+				}
+			}
+		}
+		body = append(body, bs)
+	}
+	loop.Body.List = body
+	return []ast.Stmt{&ast.BlockStmt{List: st}}
 }
